@@ -184,23 +184,29 @@ def compare(final, real):
     plugins = to_json(final['plugins'])
     problems = list(real['problems'])
     exp_loaded = list(final['loaded'])
-    if real['loaded'] != exp_loaded:
+    # a plugin whose own order() fails: neither its place nor its callbacks are compared (it may be sorted by the default
+    # order or be left out) - everything about the OTHER plugins is
+    odd = {i for i in range(1, len(plugins) + 1) if 'order' in plugins[i - 1]['faults']}
+    if [i for i in real['loaded'] if i not in odd] != [i for i in exp_loaded if i not in odd]:
         problems.append('loaded plugins %s, spec %s' % (real['loaded'], exp_loaded))
     for i in range(1, len(plugins) + 1):
+        if i in odd:
+            continue
         exp = sorted(final['called'][i - 1])
         got = real['called'].get(i, [])
         if got != exp:
             problems.append('plugin %d (%s) callbacks %s, spec %s' % (i, plugins[i - 1], got, exp))
-    loadable = set(exp_loaded)
+    loadable = set(exp_loaded) - odd
     exp_dec = sorted(i for i in loadable if 'decorate' in plugins[i - 1]['roles']
                      and 'decorate' not in plugins[i - 1]['faults'])
     if real['sent'] != 1:
         problems.append('%d snapshots delivered, expected 1' % real['sent'])
-    elif real['decorations'] != exp_dec:
+    elif [d for d in real['decorations'] if d not in odd] != exp_dec:
         problems.append('snapshot decorations from %s, expected %s' % (real['decorations'], exp_dec))
     exp_res = sorted('plugin.%s' % pname(i) for i in loadable if 'resource' in plugins[i - 1]['roles']
                      and 'resource' not in plugins[i - 1]['faults'])
-    if real['resource_keys'] != exp_res:
+    odd_keys = {'plugin.%s' % pname(i) for i in odd}
+    if [k for k in real['resource_keys'] if k not in odd_keys] != exp_res:
         problems.append('resource contributions %s, expected %s' % (real['resource_keys'], exp_res))
     return problems
 
@@ -217,6 +223,9 @@ CURATED = [
     # a resource provider that fails (the second one, by returning something that is no Resource) between two healthy ones
     [dict(load='ok', order=0, roles=['resource'], faults=[]), dict(load='ok', order=1, roles=['resource'], faults=['resource']),
      dict(load='ok', order=2, roles=['resource', 'decorate', 'log'], faults=[])],
+    # a plugin whose own order() fails, between two healthy ones
+    [dict(load='ok', order=2, roles=['decorate', 'log'], faults=[]), dict(load='ok', order=1, roles=['decorate', 'span'], faults=['order']),
+     dict(load='ok', order=0, roles=['resource', 'decorate', 'log'], faults=[])],
     [dict(load='ctor_fails', order=0, roles=['log'], faults=[]), dict(load='unimportable', order=0, roles=['log'], faults=[]),
      dict(load='ok', order=2, roles=['log', 'metric'], faults=['shutdown'])],
 ]
